@@ -534,7 +534,7 @@ def run_spec(spec, R, timeout=20.0):
                     "op": name,
                     "got": {k: rec[k] for k in ("k", "v", "w", "l")},
                     "alone": {k: ref[k] for k in ("k", "v", "w", "l")},
-                    "sig": ["result", name.split(":")[0], rec["k"], rec["v"].split(":")[0] if rec["k"] == "exc" else "value"],
+                    "sig": (["globalns-override"] if ":globalns" in name else []) + ["result", name.split(":")[0], rec["k"], rec["v"].split(":")[0] if rec["k"] == "exc" else "value"],
                 }
             )
 
